@@ -706,6 +706,12 @@ pub fn exec(pool: &Pool, prog: &Prog, spec: SchedSpec<'_>, opts: &ExecOpts, map_
         }
     }
     if opts.quarantine && oracle_fail.is_none() {
+        let (df, dsz) = crate::alloc::take_double_frees();
+        if df > 0 {
+            oracle_fail = Some(("C03", format!("double free: a block of {} bytes that was already freed (and is parked in the quarantine) was freed again ({} such frees in this execution)", dsz, df)));
+        }
+    }
+    if opts.quarantine && oracle_fail.is_none() {
         let c = crate::alloc::check_since(qmark);
         if c > 0 {
             let (_, size, off) = crate::alloc::drain_and_check();
@@ -904,7 +910,9 @@ pub fn cop_strategy(mix: Mix, hot: u16) -> BoxedStrategy<COp> {
         .boxed(),
         Mix::Resize => prop_oneof![
             8 => (0u16..40).prop_map(COp::Insert),
-            1 => k.clone().prop_map(COp::Remove),
+            2 => k.clone().prop_map(COp::Remove),
+            1 => (0u16..3).prop_map(|t| COp::RetainForce(Pred::KeyLess(t * 1024 + 1))),
+            1 => (2u8..4, 0u8..3).prop_map(|(m, r)| COp::RetainForce(Pred::KeyMod(m, r))),
             1 => k.clone().prop_map(COp::Get),
             1 => (1u16..80).prop_map(COp::Reserve),
             1 => (k.clone(), act).prop_map(|(k, a)| COp::Compute(k, a)),
@@ -948,6 +956,8 @@ pub enum Shape0 {
     HotBin(u16),
     /// few random hot keys
     Some,
+    /// a tree bin of `n` hot keys in a 64-bin table that is `delta` entries below its threshold
+    TreeNearThreshold(u16, i32),
 }
 
 fn drain_prog_strategy(max_threads: usize) -> BoxedStrategy<Prog> {
@@ -1016,6 +1026,7 @@ fn prog_strategy_general(mix: Mix, max_threads: usize, max_ops: usize) -> impl S
         2 => Just(Shape0::HotBin(8)),
         2 => (9u16..13).prop_map(Shape0::HotBin),
         2 => Just(Shape0::Some),
+        3 => (9u16..12, 0i32..3).prop_map(|(n, d)| Shape0::TreeNearThreshold(n, d)),
     ];
     (ccfg_strategy(), shape, 2usize..=max_threads, proptest::collection::vec(0u16..12, 0..6)).prop_flat_map(move |(mut cfg, shape, nthreads, some)| {
         let (filler, hot_init, hot): (u16, Vec<u16>, u16) = match shape {
@@ -1039,6 +1050,10 @@ fn prog_strategy_general(mix: Mix, max_threads: usize, max_ops: usize) -> impl S
                 h.sort();
                 h.dedup();
                 (0, h, 8)
+            }
+            Shape0::TreeNearThreshold(n, d) => {
+                cfg.capacity = 43;
+                (near_threshold_filler(43, d, n as usize), (0..n).collect(), (n + 2).min(14))
             }
         };
         let cfg2 = cfg.clone();
